@@ -193,6 +193,9 @@ def run(ctx: core.Ctx):
 
 
 def replay(ctx, body):
+    if "reader" in body:
+        from harness import c12_readers
+        return c12_readers.replay(ctx, body)
     fam = [[tuple(r) for r in rs] for rs in body["family"]]
     if body.get("op") == "or":
         print("observed now:", run_or(fam[0], fam[1]), "| recorded:", body.get("observed"))
